@@ -283,7 +283,7 @@ def shrink_extra(case, fails):
 
 def shards(tier):
     quick = tier == "quick"
-    return [{"kind": "hyp", "n": 2500 if quick else 30000} for _ in range(16)] + [{"kind": "chars", "part": i, "of": 2} for i in range(2)]
+    return [{"kind": "hyp", "n": 2500 if quick else 30000} for _ in range(16)] + [{"kind": "chars", "part": i, "of": 2} for i in range(2)] + [{"kind": "family"}]
 
 
 def run_shard(desc, seed, tier):
@@ -292,6 +292,25 @@ def run_shard(desc, seed, tier):
         # 'every character the encoding cannot express is written as a character reference': all code points, in runs
         from vf.props import c07
         c07.run_chars(acc, desc["part"], desc["of"], ["ascii", "windows-1251", "koi8-r", "iso-8859-15", "macintosh", "euc-kr", "gbk"], "C15")
+        return acc
+    if desc["kind"] == "family":
+        # hand-built documents with characters the output encoding cannot express at the places where the form of a character reference
+        # matters to a reader: first in pre / listing / textarea, before and after a newline there, in attribute values, table cells,
+        # option text, title - independent of generator statistics
+        E, T = G.E, G.T
+        texts = ["\u00e9\nsecond line", "\n\u00e9", "a\n\u0436\nb", "\u00e9", "x \u8a9e y", "\U0001f600\n", "\u00e9 &amp; \u0436", " \u00e9 ", "\u0436\r", "<\u00e9>"]
+        n = 0
+        for ti, tx in enumerate(texts):
+            bodies = [E("pre", [], [T(tx)]), E("listing", [], [T(tx)]), E("textarea", [], [T(tx)]), E("p", [[None, "title", tx]], [T(tx)]),
+                      E("table", [], [E("tbody", [], [E("tr", [], [E("td", [], [T(tx)])])])]), E("select", [], [E("option", [], [T(tx)])]),
+                      E("pre", [], [E("b", [], [T(tx)]), T(tx)]), E("div", [], [E("pre", [], [T("x"), E("i", [], []), T(tx)])])]
+            for bi, b in enumerate(bodies):
+                doc = {"doctype": True, "pre": [], "post": [],
+                       "html": E("html", [], [E("head", [], [E("title", [], [T("t" + (tx if "<" not in tx else ""))])]), E("body", [], [b])])}
+                for enc in ("ascii", "koi8-r", "shift_jis", "windows-1252", "utf-8")[(n % 2):][:3]:
+                    n += 1
+                    case = {"doc": doc, "encoding": enc, "omit": bool(n % 2), "walker": "dom" if n % 3 == 0 else "etree", "placements": [], "source": "bytes"}
+                    acc.add(case, check_case(case), sample={"markup": short(G.writer(doc), 200), "encoding": enc})
         return acc
     labels = usable_labels()
 
